@@ -10,7 +10,7 @@ From V Require Import base.Cal gen.RrTables rr.RRBase rr.RRNorm rr.RRMasks rr.RR
   rr.RRMonthlyThm rr.RRWeeklyThm rr.RRSubHourRun rr.RRSubMinRun rr.RRSubSecRun rr.RRSubFamily rr.RRSubProps
   rr.RRSubClose rr.RRSubCloseGen rr.RRSubCloseFam rr.RRSubCloseGen2 rr.RRSubStopFam rr.RRSubSpecCoh rr.RRSubSame
   rr.RRSubAdvance rr.RRSetposThm rr.RRCoarseRun rr.RRMonthlyFullThm rr.RRMonthlyNthThm rr.RRYearlyFullThm
-  rr.RRDailyFullThm rr.RRWeeklySetposThm rr.RRYearlyMonthNthThm rr.RRSortedThm rr.RRCoarseTop rr.RRNoRaise rr.RRStripThm rr.RRStripSubThm.
+  rr.RRDailyFullThm rr.RRWeeklySetposThm rr.RRYearlyMonthNthThm rr.RRSortedThm rr.RRCoarseTop rr.RRNoRaise rr.RRStripThm rr.RRStripSubThm rr.RRValidThm rr.RRCompleteThm.
 Import ListNotations.
 Open Scope Z_scope.
 
@@ -1077,3 +1077,29 @@ Theorem C01_rrule_iter_correct_subdaily_stream_all_partial : forall r rl fr, nor
     (exists L d, nth_error (fst (spec_iter r L d)) i = Some x).
 Proof. exact subdaily_iter_correct_all. Qed.
 Print Assumptions C01_rrule_iter_correct_subdaily_stream_all_partial.
+
+(* (4) rrule_invalid_dates_skipped / whole seconds: every yielded instant is a representable day 0001-01-01 ..
+   9999-12-31 that satisfies the rule's day predicate, carries a time of the rule's time set (0 <= seconds < 86400)
+   and is not earlier than the start.  good_instant r x := 1 <= fst x <= max_ord /\ day_ok r (fst x) = true /\
+   In (snd x) (period_times r 0) /\ 0 <= snd x < 86400 /\ inst_le (sp_start r) x = true *)
+Theorem C01_rrule_valid_instants_headline_partial : forall r rl limit n,
+  normalize r = Ok rl -> coarse_guard_all r n ->
+  forall x, In x (fst (iterate rl limit n)) ->
+  1 <= fst x <= max_ord /\ day_ok r (fst x) = true /\ In (snd x) (period_times r 0) /\
+  0 <= snd x < 86400 /\ inst_le (sp_start r) x = true.
+Proof. exact rrule_valid_instants_coarse_all. Qed.
+Print Assumptions C01_rrule_valid_instants_headline_partial.
+
+(* (5) "exactly": a run that stopped for a reason other than fuel (COUNT, UNTIL, year 9999, limit) is unchanged by
+   more fuel, and has yielded the specification's whole sequence (up to `limit`) *)
+Theorem C01_iterate_fuel_mono : forall rl limit n n',
+  snd (iterate rl limit n) <> TOutOfFuel -> (n <= n')%nat -> iterate rl limit n' = iterate rl limit n.
+Proof. exact iterate_fuel_mono. Qed.
+Print Assumptions C01_iterate_fuel_mono.
+
+Theorem C01_rrule_complete_headline_partial : forall r rl limit n n',
+  normalize r = Ok rl -> (n <= n')%nat -> coarse_guard_all r n' ->
+  snd (iterate rl limit n) <> TOutOfFuel ->
+  fst (spec_iter r limit n') = fst (iterate rl limit n).
+Proof. exact rrule_complete_coarse_all. Qed.
+Print Assumptions C01_rrule_complete_headline_partial.
